@@ -22,6 +22,7 @@ type vJoinEnv struct {
 	cancel   context.CancelFunc
 	stopped  bool
 	frozen   []int // values of the unreleased slice at the moment of the stop
+	ptr      int   // position in items up to which the delivered elements have been matched
 }
 
 func vJoinSetup(timed bool, closeInput bool, sink bool) *vJoinEnv {
@@ -78,6 +79,19 @@ func vJoinSetup(timed bool, closeInput bool, sink bool) *vJoinEnv {
 		s := v.([]int)
 		vAssert(len(s) > 0, "C03: no output slice is empty")
 		vAssert(len(s) <= JS, "C03: a join slice never has more than JoinSize elements")
+		// checked at every delivery (before the ownership rules, whose failure would end the path)
+		for _, x := range s {
+			found := false
+			for e.ptr < len(e.items) {
+				if e.items[e.ptr] == x {
+					found = true
+					e.ptr++
+					break
+				}
+				e.ptr++
+			}
+			vAssert(found, "C03/C16: what is delivered continues an in-order, duplicate-free subsequence of what was written")
+		}
 		vAssert(!e.awaiting, "C08: no further output is produced before the previous no-copy slice was released")
 		if nocopy {
 			e.awaiting = true
@@ -148,7 +162,7 @@ func VerifC03_v1join_normal() {
 	e.checkSubsequence()
 	vAssert(len(e.emitted) == len(e.items), "C03: the output carries exactly as many elements as were written")
 	vAssert(vIsClosed(e.d.output), "C03: the output is closed after the input was closed and flushed")
-	vAssert(vWatchHits() == 0, "C08: the discipline never writes into a slice it has delivered")
+	vAssert(vWatchHits() == 0, "C03/C08: the discipline never writes into a slice it has delivered (a consumer that keeps the slices until the output closes still reads exactly the input stream)")
 	T := int64(e.d.opts.Timeout)
 	for k := 0; k+1 < len(e.lens); k++ {
 		if e.lens[k] < JS {
